@@ -446,6 +446,17 @@ pub fn run(ctx: &Ctx) -> Report {
     }));
     levels.push(json!({"family": format!("F2 item sequences of length <= {} over {} items", maxlen, k), "cases": n2}));
     levels.push(json!({"family": format!("F2 two banks, sequences of length <= {}", maxlen_b), "cases": n2b}));
+    // model conformance: the reference assembler against the maintainers' own expectations (DESIGN §3.1 step 1)
+    let conf = crate::corpus_conf::run(&ctx.repo);
+    rep.extra(
+        "model_conformance_corpus",
+        json!({"corpus_files": conf.files_total, "in_reference_domain": conf.in_domain, "reference_prediction_equals_file_expectation": conf.agreed, "reference_unspecified": conf.reference_unspecified, "disagreements": conf.disagreements}),
+    );
+    if !conf.disagreements.is_empty() {
+        rep.machinery_error = Some(format!("reference assembler disagrees with the repository's own expectations (model bug): {}", conf.disagreements.join("; ")));
+    } else if conf.agreed < 100 {
+        rep.machinery_error = Some(format!("corpus conformance covered only {} files (corpus not found under {}?)", conf.agreed, ctx.repo));
+    }
     rep.extra("levels", json!(levels));
     rep.extra("lines_in_pool", json!(nl));
     rep.local.states.extend(rep.local.nontrivial.iter().copied());
